@@ -141,7 +141,8 @@ def gen_splitlist(rng, fam, segs):
 
 def correspond(ctx):
     rng = ctx.rng
-    names = ['Quad_findExtremes', 'Cubic_findExtremes_False', 'utils_quadraticRoots', 'Quad__findDRoots', 'Cubic__findDRoots']
+    names = ['Quad_findExtremes', 'Cubic_findExtremes_False', 'utils_quadraticRoots', 'Quad__findDRoots', 'Cubic__findDRoots',
+             'Path_splitAtPoints', 'Path_addExtremes']      # the last two: the split walk as regenerated from the source (Proofs/Bridge3.v)
     res = kernels.cross_check('C03', names, ctx.n(40, 600), rng)
     cases, meta, dist = [], [], {'X_splitAtTime': 0, 'splitAtPoints': 0, 'splitAtPoints-raises': 0, 'addExtremes': 0, 'duplicate-value paths': 0}
     # X_splitAtTime (kernels.cross_check cannot format pair results): parameters as the walk produces them, also outside [0,1]
